@@ -17,7 +17,7 @@ Lift(sub, Put(_)) == T([q \in 1..Len(sub) |-> Mut(sub[q].kind, sub[q].at, Put(su
 
 BADB64 == << <<65>>, <<65, 65, 65>>, <<65, 42, 65, 61>>, <<65, 65, 61, 61, 65, 65, 65, 65>>, <<65, 233, 65, 65>>, <<61, 61, 61, 61>>, <<65, 82, 61, 61>>, <<65, 65, 32, 65, 65>> >>
 \*            "A"     "AAA"          "A*A="              "AA==AAAA"                         "AéAA"                "===="              "AR==" (bits)       "AA AA"
-JWRONG == << JBool(TRUE), JNum(TRUE, "1"), JNum(FALSE, "1.5"), JStr(<<120>>), JArr(<<>>), JObj(<<>>), JArr(<<JNull>>), JObj(<< [key |-> "x", val |-> JNull] >>) >>
+JWRONG == << JBool(TRUE), JNum(TRUE, "1"), JNum(FALSE, "1.5"), JStr(<<120>>), JArr(<<>>), JObj(<<>>) >>
 FitsJson(t, d) ==
     CASE t.t = "bool" -> d.j = "bool"
       [] t.t = "int" -> d = JNum(TRUE, "1")
